@@ -72,7 +72,7 @@ static void fs_dstack(size_t wi, const std::string &proto, const std::string &ki
 			auto st0 = make_dstmt(W, tm, rg, n, pi, n >= 4 && rg.coin());
 			if (n == ns[0]) {   // control: the machinery accepts the true statement
 				std::unique_ptr<Instance> I(dstack_instance(W, proto, st0, 2)); RunResult R = run(*I, ctx.seed, nextsb()); count("control_runs"); count("control/" + proto);
-				if (!R.ok) { control_failed(proto, R, "n=" + std::to_string(n)); continue; }
+				if (!R.ok) control_failed(proto, R, "n=" + std::to_string(n));   // flagged; the false statements are presented nevertheless
 			}
 			for (size_t pos : positions(n, rg, quick ? 3 : 8)) {
 				std::vector<std::string> strategies = {"both", "vonly"}; if (kind == "drop") strategies = {"vonly"};
@@ -134,7 +134,7 @@ static void fs_qstack(bool cyclic, const std::string &kind) {
 		for (size_t n : (quick ? std::vector<size_t>{2, 3} : std::vector<size_t>{2, 3, 4, 5})) {
 			std::vector<size_t> pi = cyclic ? rotation(n, rg.below(n)) : rand_perm(rg, n);
 			auto st0 = make_qstmt(W, tm, rg, n, pi, n >= 4 && rg.coin());
-			if (n == 2) { std::unique_ptr<Instance> I(qstack_instance(W, cyclic, st0, 2)); RunResult R = run(*I, ctx.seed, nextsb()); count("control_runs"); count("control/" + proto); if (!R.ok) { control_failed(proto, R, "n=2"); continue; } }
+			if (n == 2) { std::unique_ptr<Instance> I(qstack_instance(W, cyclic, st0, 2)); RunResult R = run(*I, ctx.seed, nextsb()); count("control_runs"); count("control/" + proto); if (!R.ok) control_failed(proto, R, "n=2"); }
 			for (size_t pos : positions(n, rg, quick ? 3 : 5)) {
 				std::vector<std::string> strategies = {"both", "vonly"}; if (kind == "drop") strategies = {"vonly"}; if (kind == "maskflip") strategies = {"fitting-witness"};
 				for (auto &strat : strategies) for (size_t aux = 0; aux < (quick ? 1u : 2u); aux++) {
@@ -184,7 +184,7 @@ static void fs_pubrot(size_t wi, int var, const std::string &kind) {
 	} else {   // subst: one commitment re-bound to alpha+1 (c_k * g)
 		for (size_t n : (quick ? std::vector<size_t>{2, 3} : std::vector<size_t>{2, 3, 4, 8})) {
 			size_t r0 = rg.below(n); auto st0 = make_rstmt(W, n, rotation(n, (n - r0) % n));
-			if (n == 2) { std::unique_ptr<Instance> I(pubrot_instance(W, var, st0, r0)); RunResult R = run(*I, ctx.seed, nextsb()); count("control_runs"); count("control/" + proto); if (!R.ok) { control_failed(proto, R, "n=2"); continue; } }
+			if (n == 2) { std::unique_ptr<Instance> I(pubrot_instance(W, var, st0, r0)); RunResult R = run(*I, ctx.seed, nextsb()); count("control_runs"); count("control/" + proto); if (!R.ok) control_failed(proto, R, "n=2"); }
 			for (size_t pos : positions(n, rg, quick ? 3 : 8)) for (int both = 0; both < 2; both++) {
 				auto st = std::make_shared<RStmt>(*st0); st->cP.reset(new ZV(n)); st->cV.reset(new ZV(n));
 				for (size_t i = 0; i < n; i++) { mpz_set(st->cP->v[i], st0->cP->v[i]); mpz_set(st->cV->v[i], st0->cV->v[i]); }
@@ -231,7 +231,7 @@ static void fs_scalar(size_t wi, const std::string &proto, const std::string &ki
 		std::unique_ptr<Instance> I(f->make(W, rg, n));
 		uint64_t sb0 = nextsb();
 		RunResult R0 = run(*I, ctx.seed, sb0); count("control_runs"); count("control/" + proto);
-		if (!R0.ok) { control_failed(proto, R0, "registry instance"); continue; }
+		if (!R0.ok) control_failed(proto, R0, "registry instance");
 		for (auto a : alts) {
 			std::vector<std::string> handles; if (a.handle == "m[*]") { for (size_t i = 0; i < n; i++) handles.push_back("m[" + std::to_string(i) + "]"); } else handles.push_back(a.handle);
 			for (size_t hi = 0; hi < handles.size(); hi++) {
@@ -266,7 +266,7 @@ static void fs_key_nizk(size_t wi) {
 	std::unique_ptr<Instance> I(find_factory(proto)->make(W, rg, 0));
 	RunResult R0 = run(*I, ctx.seed, nextsb()); count("control_runs"); count("control/" + proto);
 	if (!R0.ok) control_failed(proto, R0, "registry instance");
-	else for (long rep = 0; rep < (quick ? 4 : 12); rep++) {
+	for (long rep = 0; rep < (quick ? 4 : 12); rep++) {
 		MZ f, hp, e; if (rep == 0) mpz_set(f, W.vP->g); else { rg.mpz_below(e, W.vP->q); if (mpz_cmp_ui(e.v, 2) < 0) mpz_set_ui(e, 2); mpz_powm(f, W.vP->g, e, W.vP->p); }
 		mpz_mul(hp, W.vP->h_i, f); mpz_mod(hp, hp, W.vP->p);
 		FsCase c; c.world = g_worlds[wi].tag; c.proto = proto; c.kind = kind; c.detail = rep == 0 ? "h' = h_i*g" : "h' = h_i*g^e, e random"; c.sa = ctx.seed;
@@ -293,7 +293,7 @@ static void fs_otherkey(size_t wi, const std::string &proto) {
 	for (long rep = 0; rep < (quick ? 3 : 8); rep++) {
 		std::unique_ptr<Instance> I(find_factory(proto)->make(W, rg, 0));
 		RunResult R0 = run(*I, ctx.seed, nextsb()); count("control_runs"); count("control/" + proto);
-		if (!R0.ok) { control_failed(proto, R0, "registry instance"); continue; }
+		if (!R0.ok) control_failed(proto, R0, "registry instance");
 		mpz_ptr c1 = pubv(*I, h1);
 		MZ xo, d_true, d_false; rg.mpz_below(xo, W.vP->q); if (!mpz_cmp(xo, W.vP->x_i)) mpz_add_ui(xo, xo, 1);
 		mpz_powm(d_true, c1, W.vP->x_i, W.vP->p); mpz_powm(d_false, c1, xo, W.vP->p);
@@ -342,7 +342,7 @@ static void fs_qmask(const std::string &kind) {
 		auto st0 = std::make_shared<QMask>(w_); size_t T = rg.below((size_t)1 << w_);
 		if (rg.coin()) tm.TMCG_CreateOpenCard(st0->c, *W.ring, T); else { TMCG_CardSecret s0(2, w_); tm.TMCG_CreatePrivateCard(st0->c, s0, *W.ring, rg.below(2), T); }
 		tm.TMCG_CreateCardSecret(st0->cs, *W.ring, 0); tm.TMCG_MaskCard(st0->c, st0->ccP, st0->cs, *W.ring); st0->ccV = st0->ccP;
-		if (rep == 0) { std::unique_ptr<Instance> I(qmask_instance(W, st0, 2)); RunResult R = run(*I, ctx.seed, nextsb()); count("control_runs"); count("control/" + proto); if (!R.ok) { control_failed(proto, R, ""); continue; } }
+		if (rep == 0) { std::unique_ptr<Instance> I(qmask_instance(W, st0, 2)); RunResult R = run(*I, ctx.seed, nextsb()); count("control_runs"); count("control/" + proto); if (!R.ok) control_failed(proto, R, ""); }
 		for (size_t kk = 0; kk < 2; kk++) for (size_t ww = 0; ww < w_; ww++) {
 			if (quick && ((kk * w_ + ww + rep) % 2)) continue;   // quick: every other component per repetition (all components over the repetitions)
 			std::vector<std::string> strategies = {"both", "vonly"}; if (kind == "maskflip") strategies = {"fitting-witness"};
@@ -383,7 +383,7 @@ static void fs_qcardsecret(const std::string &kind) {
 	long want = quick ? 6 : 20, tries = 0;
 	for (long rep = 0; rep < want && tries < 4000; tries++) {
 		auto st = std::make_shared<QCS>(w_); { TMCG_CardSecret s0(2, w_); tm.TMCG_CreatePrivateCard(st->cP, s0, *W.ring, 1, rg.below((size_t)1 << w_)); } st->cV = st->cP;
-		if (rep == 0 && tries == 0) { std::unique_ptr<Instance> I(qcs_instance(W, st, 2, false)); RunResult R = run(*I, ctx.seed, nextsb()); count("control_runs"); count("control/" + proto); if (!R.ok) { control_failed(proto, R, ""); break; } }
+		if (rep == 0 && tries == 0) { std::unique_ptr<Instance> I(qcs_instance(W, st, 2, false)); RunResult R = run(*I, ctx.seed, nextsb()); count("control_runs"); count("control/" + proto); if (!R.ok) control_failed(proto, R, ""); }
 		unsigned long kappa = 2 + rg.below(4); std::string detail; bool other = false;
 		if (kind == "otherkey") {
 			// the library prover asserts unless, under the OTHER player's key, every z is a residue or z*y^-1 is one: pick such cards
